@@ -18,7 +18,9 @@ Definition dec_pair (v : vl) : option (list N * list N) :=
 (* op: roll as is | write then roll | (2 name value): the process sets an environment variable
    (the archive names are expanded at every roll, fixed_window.rs:217-227, so later rolls use it) *)
 Inductive cop := ORoll (w : option bytes) | OSetEnv (k v : list N)
-                | ORmDir (d : path).   (* somebody else removes a directory (with everything below it) *)
+                | ORmDir (d : path)    (* somebody else removes a directory (with everything below it) *)
+                | OChdir (d : path).   (* the process changes its working directory to <root>/d ([] = the root): the
+                                          roller's relative pattern and the relative log path mean files below it *)
 
 Fixpoint has_prefix (p s : list N) : bool :=
   match p, s with
@@ -34,6 +36,7 @@ Definition dec_op (v : vl) : option cop :=
   | VL [VN 0] => Some (ORoll None)
   | VL [VN 2; VS k; VS x] => Some (OSetEnv k x)
   | VL [VN 3; VS d] => Some (ORmDir d)
+  | VL [VN 4; VS d] => Some (OChdir d)
   | VL [VN _; VS x] => Some (ORoll (Some x))
   | _ => None
   end.
@@ -46,17 +49,21 @@ Definition vpanic : vl := VS [112; 97; 110; 105; 99].
 
 Definition envt := list (list N * list N).
 
-Fixpoint run_ops (roller : envt -> path -> fs -> outcome) (env : envt) (file : path) (ops : list cop) (f : fs)
-  : option (list vl) :=
+Definition under (cwd p : path) : path := match cwd with [] => p | _ => cwd ++ 47 :: p end.
+
+Fixpoint run_ops (roller : path -> envt -> path -> fs -> outcome) (cwd : path) (env : envt) (file : path)
+         (ops : list cop) (f : fs) : option (list vl) :=
   match ops with
   | [] => Some []
-  | OSetEnv k v :: rest => run_ops roller ((k, v) :: env) file rest f    (* the first binding of a name wins *)
-  | ORmDir d :: rest => run_ops roller env file rest (rm_dir d f)
+  | OSetEnv k v :: rest => run_ops roller cwd ((k, v) :: env) file rest f    (* the first binding of a name wins *)
+  | ORmDir d :: rest => run_ops roller cwd env file rest (rm_dir d f)
+  | OChdir d :: rest => run_ops roller d env file rest f
   | ORoll o :: rest =>
-    let f1 := match o with Some x => write file x f | None => f end in
-    match roller env file f1 with
-    | Done g => option_map (cons (VL [VN 0; enc_fs g])) (run_ops roller env file rest g)
-    | Failed g => option_map (cons (VL [VN 1; enc_fs g])) (run_ops roller env file rest g)
+    let here := under cwd file in
+    let f1 := match o with Some x => write here x f | None => f end in
+    match roller cwd env here f1 with
+    | Done g => option_map (cons (VL [VN 0; enc_fs g])) (run_ops roller cwd env file rest g)
+    | Failed g => option_map (cons (VL [VN 1; enc_fs g])) (run_ops roller cwd env file rest g)
     | Panicked => None
     end
   end.
@@ -67,9 +74,11 @@ Definition c07_run (v : vl) : vl :=
     match val_list dec_pair env, val_list dec_pair init, val_list dec_op ops with
     | Some env, Some init, Some ops =>
       let cm : cmode := if gz =? 0 then None else Some gz_tag in
-      let roller := if kind =? 0 then (fun (e : envt) file f => roll (archive_name e pat) cm None b c file f)
-                    else (fun (_ : envt) file f => delete_roll file f) in
-      match run_ops roller env file ops (mkfs init) with
+      let roller := if kind =? 0
+                    then (fun (cwd : path) (e : envt) file f =>
+                            roll (fun i => under cwd (archive_name e pat i)) cm None b c file f)
+                    else (fun (_ : path) (_ : envt) file f => delete_roll file f) in
+      match run_ops roller [] env file ops (mkfs init) with
       | Some l => VL l
       | None => vpanic
       end
